@@ -7,6 +7,8 @@ import OG.C09.Model
 
 namespace OG.C09
 
+variable (ty : ColType)
+
 /-! ## algebra of the two combinations -/
 
 theorem optComb_none_left {α} (f : α → α → α) (b : Option α) : optComb f none b = b := by
@@ -31,16 +33,16 @@ theorem pickMin_assoc (a b c : Int × Int) : pickMin (pickMin a b) c = pickMin a
   unfold pickMin; grind
 theorem pickMax_assoc (a b c : Int × Int) : pickMax (pickMax a b) c = pickMax a (pickMax b c) := by
   unfold pickMax; grind
-theorem pickFirst_assoc (a b c : Int × Int) : pickFirst (pickFirst a b) c = pickFirst a (pickFirst b c) := by
-  unfold pickFirst; grind
+theorem pickFirst_assoc (a b c : Int × Int) : pickFirst ty (pickFirst ty a b) c = pickFirst ty a (pickFirst ty b c) := by
+  unfold pickFirst; split <;> grind
 theorem pickLast_assoc (a b c : Int × Int) : pickLast (pickLast a b) c = pickLast a (pickLast b c) := by
   unfold pickLast; grind
 theorem pickMin_comm (a b : Int × Int) : pickMin a b = pickMin b a := by
   unfold pickMin; grind
 theorem pickMax_comm (a b : Int × Int) : pickMax a b = pickMax b a := by
   unfold pickMax; grind
-theorem pickFirst_comm (a b : Int × Int) : pickFirst a b = pickFirst b a := by
-  unfold pickFirst; grind
+theorem pickFirst_comm (a b : Int × Int) : pickFirst ty a b = pickFirst ty b a := by
+  unfold pickFirst; split <;> grind
 theorem pickLast_comm (a b : Int × Int) : pickLast a b = pickLast b a := by
   unfold pickLast; grind
 
@@ -61,25 +63,25 @@ theorem Stats.seq_assoc (a b c : Stats) : (a.seq b).seq c = a.seq (b.seq c) := b
   · exact optComb_assoc keepLeft_assoc _ _ _
   · exact optComb_assoc keepRight_assoc _ _ _
 
-@[simp] theorem Stats.merge_empty_left (b : Stats) : Stats.merge {} b = b := by
+@[simp] theorem Stats.merge_empty_left (b : Stats) : Stats.merge ty {} b = b := by
   apply Stats.ext' <;> simp [Stats.merge, optComb_none_left]
-@[simp] theorem Stats.merge_empty_right (a : Stats) : Stats.merge a {} = a := by
+@[simp] theorem Stats.merge_empty_right (a : Stats) : Stats.merge ty a {} = a := by
   apply Stats.ext' <;> simp [Stats.merge, optComb_none_right]
-theorem Stats.merge_assoc (a b c : Stats) : (a.merge b).merge c = a.merge (b.merge c) := by
+theorem Stats.merge_assoc (a b c : Stats) : (a.merge ty b).merge ty c = a.merge ty (b.merge ty c) := by
   apply Stats.ext' <;> simp only [Stats.merge]
   · omega
   · exact Int.add_assoc _ _ _
   · exact optComb_assoc pickMin_assoc _ _ _
   · exact optComb_assoc pickMax_assoc _ _ _
-  · exact optComb_assoc pickFirst_assoc _ _ _
+  · exact optComb_assoc (pickFirst_assoc ty) _ _ _
   · exact optComb_assoc pickLast_assoc _ _ _
-theorem Stats.merge_comm (a b : Stats) : a.merge b = b.merge a := by
+theorem Stats.merge_comm (a b : Stats) : a.merge ty b = b.merge ty a := by
   apply Stats.ext' <;> simp only [Stats.merge]
   · omega
   · exact Int.add_comm _ _
   · exact optComb_comm pickMin_comm _ _
   · exact optComb_comm pickMax_comm _ _
-  · exact optComb_comm pickFirst_comm _ _
+  · exact optComb_comm (pickFirst_comm ty) _ _
   · exact optComb_comm pickLast_comm _ _
 
 /-! ## folds -/
@@ -91,10 +93,10 @@ theorem foldl_seq_init (s : Stats) (l : List Stats) :
   | cons x xs ih => simp only [List.foldl_cons, Stats.seq_empty_left]; rw [ih (s.seq x), ih x, Stats.seq_assoc]
 
 theorem foldl_merge_init (s : Stats) (l : List Stats) :
-    l.foldl Stats.merge s = s.merge (l.foldl Stats.merge {}) := by
+    l.foldl (Stats.merge ty) s = s.merge ty (l.foldl (Stats.merge ty) {}) := by
   induction l generalizing s with
   | nil => simp
-  | cons x xs ih => simp only [List.foldl_cons, Stats.merge_empty_left]; rw [ih (s.merge x), ih x, Stats.merge_assoc]
+  | cons x xs ih => simp only [List.foldl_cons, Stats.merge_empty_left]; rw [ih (s.merge ty x), ih x, Stats.merge_assoc]
 
 theorem buildStats_eq_foldl_map (rows : List Row) :
     buildStats rows = (rows.map Stats.single).foldl Stats.seq {} := by
@@ -116,21 +118,21 @@ theorem buildStats_cons (r : Row) (l : List Row) :
   simpa using this
 
 /-- the statistics of rows taken in any order, combined with the record-level merge. -/
-def mergeOf (rows : List Row) : Stats := (rows.map Stats.single).foldl Stats.merge {}
+def mergeOf (ty : ColType) (rows : List Row) : Stats := (rows.map Stats.single).foldl (Stats.merge ty) {}
 
-@[simp] theorem mergeOf_nil : mergeOf [] = {} := rfl
-theorem mergeOf_append (a b : List Row) : mergeOf (a ++ b) = (mergeOf a).merge (mergeOf b) := by
+@[simp] theorem mergeOf_nil : mergeOf ty [] = {} := rfl
+theorem mergeOf_append (a b : List Row) : mergeOf ty (a ++ b) = (mergeOf ty a).merge ty (mergeOf ty b) := by
   simp only [mergeOf, List.map_append, List.foldl_append]
   rw [foldl_merge_init]
-theorem mergeOf_cons (r : Row) (l : List Row) : mergeOf (r :: l) = (Stats.single r).merge (mergeOf l) := by
-  have := mergeOf_append [r] l
+theorem mergeOf_cons (r : Row) (l : List Row) : mergeOf ty (r :: l) = (Stats.single r).merge ty (mergeOf ty l) := by
+  have := mergeOf_append ty [r] l
   simpa [mergeOf] using this
 
-theorem mergeOf_perm {a b : List Row} (h : a.Perm b) : mergeOf a = mergeOf b := by
+theorem mergeOf_perm {a b : List Row} (h : a.Perm b) : mergeOf ty a = mergeOf ty b := by
   unfold mergeOf
   apply List.Perm.foldl_eq' (h.map _)
   intro x _ y _ z
-  rw [Stats.merge_assoc, Stats.merge_comm x y, ← Stats.merge_assoc]
+  rw [Stats.merge_assoc, Stats.merge_comm ty x y, ← Stats.merge_assoc]
 
 /-- strictly ascending in time (what every container of one series is). -/
 def StrictAsc (l : List Row) : Prop := l.Pairwise (fun a b => a.t < b.t)
@@ -202,7 +204,7 @@ theorem buildStats_last_mem {l : List Row} {p : Int × Int} (h : (buildStats l).
 theorem single_seq_eq_merge (r : Row) (s : Stats)
     (hmin : ∀ p, s.min = some p → r.t < p.2) (hmax : ∀ p, s.max = some p → r.t < p.2)
     (hfirst : ∀ p, s.first = some p → r.t < p.1) (hlast : ∀ p, s.last = some p → r.t < p.1) :
-    (Stats.single r).seq s = (Stats.single r).merge s := by
+    (Stats.single r).seq s = (Stats.single r).merge ty s := by
   rcases r with ⟨t, v⟩
   cases v with
   | none => simp [Stats.single]
@@ -221,7 +223,7 @@ theorem single_seq_eq_merge (r : Row) (s : Stats)
       | none => rfl
       | some p => have := hlast p hm; simp only [optComb, keepRight, pickLast]; grind
 
-theorem buildStats_eq_mergeOf {l : List Row} (h : StrictAsc l) : buildStats l = mergeOf l := by
+theorem buildStats_eq_mergeOf {l : List Row} (h : StrictAsc l) : buildStats l = mergeOf ty l := by
   induction l with
   | nil => rfl
   | cons r l ih =>
@@ -459,8 +461,9 @@ theorem last_of_last {y : Row} {ys : List Row} {lo hi v : Int} (hy : inRange lo 
   rcases y with ⟨t, yv⟩; simp only at hv; subst hv
   simp [List.filter_cons_of_pos hy, Stats.single]
 
-theorem segFirst_eq {c : Chunk} (h : Chunk.WF c) {seg : Segment} (hs : seg ∈ c) (lo hi : Int) :
-    segFirst (storedStats c).min lo hi seg = (buildStats (seg.filter (inRange lo hi))).first := by
+theorem segFirst_eq {c : Chunk} (h : Chunk.WF c) {seg : Segment} (hs : seg ∈ c) (lo hi : Int)
+    (sm : Option (Int × Int)) (hsm : sm = none ∨ sm = (storedStats c).min) :
+    segFirst sm lo hi seg = (buildStats (seg.filter (inRange lo hi))).first := by
   have hasc := h.seg_asc hs
   unfold segFirst
   cases hr : segRange seg with
@@ -490,24 +493,29 @@ theorem segFirst_eq {c : Chunk} (h : Chunk.WF c) {seg : Segment} (hs : seg ∈ c
         have hin : inRange lo hi x = true := by simp [inRange]; omega
         rw [first_of_head hin hv]; simp [hv, ha]
       · rw [rowsInRange_eq_filter hasc]
-    cases hm : (storedStats c).min with
+    cases hm : sm with
     | none => exact hdata
     | some q =>
       rcases q with ⟨v, t⟩
+      have hm' : (storedStats c).min = some (v, t) := by
+        rcases hsm with e | e
+        · rw [e] at hm; cases hm
+        · rw [← e]; exact hm
       simp only
       split
       · rename_i hc
         simp only [Bool.and_eq_true, decide_eq_true_eq] at hc
         subst e1
-        have hmem : (⟨t, some v⟩ : Row) ∈ c.flatten := buildStats_min_mem (p := (v, t)) hm
+        have hmem : (⟨t, some v⟩ : Row) ∈ c.flatten := buildStats_min_mem (p := (v, t)) hm'
         have hxmem : x ∈ c.flatten := Chunk.WF.mem_flatten hs List.mem_cons_self
         have hx : x = ⟨t, some v⟩ := h.2.eq_of_t_eq hxmem hmem (by simp; omega)
         have hin : inRange lo hi x = true := by simp [inRange]; omega
         rw [first_of_head hin (v := v) (by rw [hx])]; simp [ha]
       · exact hdata
 
-theorem segLast_eq {c : Chunk} (h : Chunk.WF c) {seg : Segment} (hs : seg ∈ c) (lo hi : Int) :
-    segLast (storedStats c).max lo hi seg = (buildStats (seg.filter (inRange lo hi))).last := by
+theorem segLast_eq {c : Chunk} (h : Chunk.WF c) {seg : Segment} (hs : seg ∈ c) (lo hi : Int)
+    (sm : Option (Int × Int)) (hsm : sm = none ∨ sm = (storedStats c).max) :
+    segLast sm lo hi seg = (buildStats (seg.filter (inRange lo hi))).last := by
   have hasc := h.seg_asc hs
   unfold segLast
   cases hr : segRange seg with
@@ -536,39 +544,43 @@ theorem segLast_eq {c : Chunk} (h : Chunk.WF c) {seg : Segment} (hs : seg ∈ c)
         have hin : inRange lo hi y = true := by simp [inRange]; omega
         rw [last_of_last hin hv]; simp [hv, hb]
       · rw [rowsInRange_eq_filter hasc]
-    cases hm : (storedStats c).max with
+    cases hm : sm with
     | none => exact hdata
     | some q =>
       rcases q with ⟨v, t⟩
+      have hm' : (storedStats c).max = some (v, t) := by
+        rcases hsm with e | e
+        · rw [e] at hm; cases hm
+        · rw [← e]; exact hm
       simp only
       split
       · rename_i hc
         simp only [Bool.and_eq_true, decide_eq_true_eq] at hc
         subst e2
-        have hmem : (⟨t, some v⟩ : Row) ∈ c.flatten := buildStats_max_mem (p := (v, t)) hm
+        have hmem : (⟨t, some v⟩ : Row) ∈ c.flatten := buildStats_max_mem (p := (v, t)) hm'
         have hymem : y ∈ c.flatten := Chunk.WF.mem_flatten hs (by simp)
         have hy : y = ⟨t, some v⟩ := h.2.eq_of_t_eq hymem hmem (by simp; omega)
         have hin : inRange lo hi y = true := by simp [inRange]; omega
         rw [last_of_last hin (v := v) (by rw [hy])]; simp [hb]
       · exact hdata
 
-theorem chunkFirst_eq {c : Chunk} (h : Chunk.WF c) (lo hi : Int) :
-    chunkFirst lo hi c = (buildStats (c.flatten.filter (inRange lo hi))).first := by
+theorem chunkFirst_eq {c : Chunk} (h : Chunk.WF c) (ty : ColType) (lo hi : Int) :
+    chunkFirst ty lo hi c = (buildStats (c.flatten.filter (inRange lo hi))).first := by
   unfold chunkFirst
   rw [List.filter_flatten, buildStats_flatten_first, List.findSome?_map]
-  exact findSome?_congr' (fun seg hs => segFirst_eq h hs lo hi)
+  exact findSome?_congr' (fun seg hs => segFirst_eq h hs lo hi _ (by split <;> simp))
 
-theorem chunkLast_eq {c : Chunk} (h : Chunk.WF c) (lo hi : Int) :
-    chunkLast lo hi c = (buildStats (c.flatten.filter (inRange lo hi))).last := by
+theorem chunkLast_eq {c : Chunk} (h : Chunk.WF c) (ty : ColType) (lo hi : Int) :
+    chunkLast ty lo hi c = (buildStats (c.flatten.filter (inRange lo hi))).last := by
   unfold chunkLast
   rw [List.filter_flatten, buildStats_flatten_last, ← List.map_reverse, List.findSome?_map]
-  exact findSome?_congr' (fun seg hs => segLast_eq h (List.mem_reverse.mp hs) lo hi)
+  exact findSome?_congr' (fun seg hs => segLast_eq h (List.mem_reverse.mp hs) lo hi _ (by split <;> simp))
 
 /-- **one chunk**: what `readSegmentMetaRecord` answers (stored statistics when the chunk lies
 inside the range, scans of the overlapping segments otherwise, first/last through the
 shortcuts of `FirstLastReader`) is the statistics record of the chunk's rows in the range. -/
-theorem chunkStats_eq {c : Chunk} (h : Chunk.WF c) (lo hi : Int) :
-    chunkStats lo hi c = buildStats (c.flatten.filter (inRange lo hi)) := by
+theorem chunkStats_eq {c : Chunk} (h : Chunk.WF c) (ty : ColType) (lo hi : Int) :
+    chunkStats ty lo hi c = buildStats (c.flatten.filter (inRange lo hi)) := by
   unfold chunkStats
   rw [chunkBody_eq h, chunkFirst_eq h, chunkLast_eq h]
 
@@ -664,12 +676,12 @@ theorem foldl_insertRow {l acc : List Row} (hl : l.Pairwise (fun a b => a.t ≠ 
 
 /-! ### one series -/
 
-theorem mergeOf_flatten (L : List (List Row)) : mergeOf L.flatten = (L.map mergeOf).foldl Stats.merge {} := by
+theorem mergeOf_flatten (L : List (List Row)) : mergeOf ty L.flatten = (L.map (mergeOf ty)).foldl (Stats.merge ty) {} := by
   induction L with
   | nil => rfl
   | cons l L ih =>
     rw [List.flatten_cons, mergeOf_append, ih, List.map_cons, List.foldl_cons, Stats.merge_empty_left,
-      foldl_merge_init (mergeOf l)]
+      foldl_merge_init ty (mergeOf ty l)]
 
 theorem viewRows_eq (lo hi : Int) (d : SeriesData) :
     viewRows lo hi d = (((containers d).map (fun c => c.filter (inRange lo hi))).flatten).foldl (fun a r => insertRow r a) [] := by
@@ -702,24 +714,87 @@ theorem container_asc {d : SeriesData} (hw : d.WF) {c : List Row} (hc : c ∈ co
 
 /-- the row-level answer is the record merge of the rows in range of all containers. -/
 theorem aggRows_eq_mergeOf {d : SeriesData} (hw : d.WF) {lo hi : Int} (hk : NoKeyTwiceIn lo hi d) :
-    aggRows lo hi d = mergeOf (((containers d).map (fun c => c.filter (inRange lo hi))).flatten) := by
+    aggRows lo hi d = mergeOf d.ty (((containers d).map (fun c => c.filter (inRange lo hi))).flatten) := by
   unfold aggRows
   rw [viewRows_eq]
   have := foldl_insertRow (acc := []) (inRange_rows_distinct hw hk) (by simp [StrictAsc]) (by simp)
-  rw [buildStats_eq_mergeOf this.1]
-  exact mergeOf_perm (by simpa using this.2)
+  rw [buildStats_eq_mergeOf d.ty this.1]
+  exact mergeOf_perm d.ty (by simpa using this.2)
 
 /-- the statistics path is the same record merge. -/
 theorem aggViaStats_eq_mergeOf {d : SeriesData} (hw : d.WF) (lo hi : Int) :
-    aggViaStats lo hi d = mergeOf (((containers d).map (fun c => c.filter (inRange lo hi))).flatten) := by
+    aggViaStats lo hi d = mergeOf d.ty (((containers d).map (fun c => c.filter (inRange lo hi))).flatten) := by
   unfold aggViaStats containers
   rw [List.map_cons, List.flatten_cons, mergeOf_append, mergeOf_flatten, foldl_merge_init,
-    buildStats_eq_mergeOf (hw.1.filter _)]
+    buildStats_eq_mergeOf d.ty (hw.1.filter _)]
   congr 2
   rw [List.map_map, List.map_map]
   apply List.map_congr_left
   intro c hc
   simp only [Function.comp]
-  rw [chunkStats_eq (hw.2 c hc), buildStats_eq_mergeOf ((hw.2 c hc).2.filter _)]
+  rw [chunkStats_eq (hw.2 c hc), buildStats_eq_mergeOf d.ty ((hw.2 c hc).2.filter _)]
+
+/-! ### time buckets -/
+
+theorem bucketStart_le (w t : Int) (hw : 0 < w) : bucketStart w t ≤ t := by
+  unfold bucketStart
+  have := Int.emod_nonneg t (Int.ne_of_gt hw)
+  omega
+
+theorem lt_bucketStart_add (w t : Int) (hw : 0 < w) : t < bucketStart w t + w := by
+  unfold bucketStart
+  have := Int.emod_lt_of_pos t hw
+  omega
+
+theorem bucketStart_aligned (w t : Int) : bucketStart w t % w = 0 := by
+  unfold bucketStart
+  have h : t - t % w = w * (t / w) := by
+    have := Int.mul_ediv_add_emod t w
+    omega
+  rw [h]; exact Int.mul_emod_right w (t / w)
+
+/-! ### a descending scan -/
+
+theorem buildStats_count_sum (l : List Row) :
+    (buildStats l).count = (mergeOf ty l).count ∧ (buildStats l).sum = (mergeOf ty l).sum := by
+  induction l with
+  | nil => exact ⟨rfl, rfl⟩
+  | cons r l ih =>
+    rw [buildStats_cons, mergeOf_cons]
+    simp [Stats.seq, Stats.merge, ih.1, ih.2]
+
+theorem optComb_min_fst (x : Option (Int × Int)) {a a' : Option (Int × Int)}
+    (h : a.map (·.1) = a'.map (·.1)) :
+    (optComb seqMin x a).map (·.1) = (optComb pickMin x a').map (·.1) := by
+  cases x <;> cases a <;> cases a' <;> simp_all [optComb, seqMin, pickMin] <;> grind
+
+theorem optComb_max_fst (x : Option (Int × Int)) {a a' : Option (Int × Int)}
+    (h : a.map (·.1) = a'.map (·.1)) :
+    (optComb seqMax x a).map (·.1) = (optComb pickMax x a').map (·.1) := by
+  cases x <;> cases a <;> cases a' <;> simp_all [optComb, seqMax, pickMax] <;> grind
+
+/-- the extreme *values* of a scan do not depend on the order of the rows. -/
+theorem buildStats_extreme_values (l : List Row) :
+    (buildStats l).min.map (·.1) = (mergeOf ty l).min.map (·.1) ∧
+    (buildStats l).max.map (·.1) = (mergeOf ty l).max.map (·.1) := by
+  induction l with
+  | nil => exact ⟨rfl, rfl⟩
+  | cons r l ih =>
+    rw [buildStats_cons, mergeOf_cons]
+    exact ⟨optComb_min_fst _ ih.1, optComb_max_fst _ ih.2⟩
+
+theorem single_first_eq_last (r : Row) : (Stats.single r).first = (Stats.single r).last := by
+  rcases r with ⟨t, v⟩; cases v <;> rfl
+
+theorem buildStats_reverse_last (l : List Row) : (buildStats l.reverse).last = (buildStats l).first := by
+  induction l with
+  | nil => rfl
+  | cons r l ih =>
+    rw [List.reverse_cons, buildStats_append_last, ih, buildStats_singleton, buildStats_cons]
+    simp [Stats.seq, optComb_keepLeft, single_first_eq_last]
+
+theorem buildStats_reverse_first (l : List Row) : (buildStats l.reverse).first = (buildStats l).last := by
+  have := buildStats_reverse_last l.reverse
+  rw [List.reverse_reverse] at this; exact this.symm
 
 end OG.C09
